@@ -72,6 +72,7 @@ class Chain(Sym):
         self.sites = [Tag(f"site{k}") for k in range(n)]
         self.qn = [Tag(f"qn{k}") for k in range(n + 1)]
         self.qntot, self.total_bytes, self.dtype = Tag("qntot"), 1, Blob("dtype")
+        self.is_complex = False
         self.writes = []
         self.__dict__.update(attrs)
 
@@ -520,3 +521,122 @@ def prefactor_rule(chk, src, rule):
     res = it.call_function(fi, [a])
     ok = isinstance(res, Vec) and res.total() == lin({"a*": sp.conjugate(ca)}) and a.total() == lin({"a": ca})
     chk.ob(rule, "Mps.conj: conj(c |psi>) = conj(c) |psi*>", ok, fi.where, str(res.total()) if isinstance(res, Vec) else repr(res), "conj(c_a) a*", line=fi.node.lineno)
+
+
+# ---------------------------------------------------------------------------------------------- batched expectation values through cached partial environments
+def batched_expectation_rule(chk, src, rule):
+    """abstract run of Mps.expectations (cached path) with _construct_freq_environ and _get_freq_environ run from source: an environment is the ordered list of
+    (site, operator matrix) pairs it has absorbed.  For every operator of several lists (shared prefixes, shared suffixes, identical operators, one operator, operators
+    differing at one site) the closed network absorbs every site exactly once, left part ascending from site 0, right part descending from the last site, each site
+    with that operator's own matrix, the state's site and the bra's site - and the results come back in the order of the list."""
+    import collections
+    fi = src.func(MPS, "Mps.expectations")
+    n = 5
+
+    class Cov(Sym):
+        def __init__(self, domain, sites):
+            super().__init__(f"env[{domain}]" + "".join(f"({i}:{m})" for i, m in sites))
+            self.domain, self.sites = domain, list(sites)
+
+        def flatten(self):
+            return self
+
+        ravel = flatten
+
+        def __matmul__(self, o):
+            return Closed(self, o)
+
+        def dot(self, o):
+            return Closed(self, o)
+
+    class Closed(Sym):
+        def __init__(self, l, r):
+            super().__init__("closed")
+            self.l, self.r = l, r
+
+    class Mat(Sym):
+        """one site matrix of an operator; equal matrices have equal hashes"""
+        def __init__(self, ident):
+            super().__init__(ident)
+            self.ident = ident
+
+        @property
+        def array(self):
+            return self
+
+    class Res(Sym):
+        def __init__(self, items):
+            super().__init__("results")
+            self.items = list(items)
+            self.imag, self.real = self, self
+
+    lists = {
+        "shared prefixes and suffixes": [["a0", "I1", "I2", "I3", "I4"], ["a0", "I1", "I2", "I3", "b4"], ["I0", "I1", "c2", "I3", "b4"], ["a0", "I1", "c2", "I3", "I4"]],
+        "identical operators": [["a0", "I1", "I2", "I3", "I4"], ["a0", "I1", "I2", "I3", "I4"], ["a0", "I1", "I2", "I3", "I4"]],
+        "one operator": [["a0", "b1", "c2", "d3", "e4"]],
+        "differing at one site": [["I0", "I1", "x2", "I3", "I4"], ["I0", "I1", "y2", "I3", "I4"], ["I0", "I1", "z2", "I3", "I4"]],
+        "reversed order of the first list": [["a0", "I1", "c2", "I3", "I4"], ["I0", "I1", "c2", "I3", "b4"], ["a0", "I1", "I2", "I3", "b4"], ["a0", "I1", "I2", "I3", "I4"]],
+    }
+    for lname, ops in lists.items():
+        mats = {}
+
+        class OpChain(Sym):
+            def __init__(self, k, idents):
+                super().__init__(f"operator{k}")
+                self.sites = [mats.setdefault(x, Mat(x)) for x in idents]
+                self.is_complex = False
+
+            def __iter__(self):
+                return iter(self.sites)
+
+            def __len__(self):
+                return len(self.sites)
+
+            def __getitem__(self, i):
+                return self.sites[i]
+        mpos = [OpChain(k, idents) for k, idents in enumerate(ops)]
+        problems = []
+
+        def one_site(environ, ms, mo, domain=None, ms_conj=None):
+            if not isinstance(environ, Cov):
+                environ = Cov(domain, [])
+            if environ.domain != domain and environ.sites:
+                problems.append(f"a {environ.domain} environment is extended as {domain}")
+            if not (isinstance(ms, Tag) and isinstance(ms_conj, Tag) and ms._name.startswith("site") and ms_conj._name == ms._name + ".conj"):
+                problems.append(f"site kernel called with state site {ms!r} and bra site {ms_conj!r}")
+                return Cov(domain, environ.sites + [(-1, getattr(mo, "ident", repr(mo)))])
+            return Cov(domain, environ.sites + [(int(ms._name[4:]), getattr(mo, "ident", repr(mo)))])
+        me = Chain(n, True)
+        me.model = Sym("model")
+        bra = Chain(n, True)
+        bra.sites = [Tag(f"site{k_}.conj") for k_ in range(n)]
+        me.__dict__["_expectation_conj"] = lambda: bra
+        resolve = class_resolver(src, {"Mps": MPS})
+        npx = OpenSym("np", make=lambda t: Blob(t), inf=10 ** 9, array=lambda x, **k_: Res(x) if isinstance(x, list) else x, allclose=lambda *a, **k_: isinstance(a[0], Mat) or not isinstance(a[0], Res))
+        it = SymInterp(src, resolve, {"np": npx, "xp": OpenSym("xp", make=lambda t: Cov("?", [])), "Counter": collections.Counter, "hash": lambda m: f"#{m.ident}", "contract_one_site": one_site,
+                                      "complex": lambda x: x, "float": lambda x: x, "isinstance": lambda x, t: False, "backend": Blob("backend"), "logger": Blob("logger"), "Mpo": Blob("Mpo"),
+                                      "Op": "Op", "OpSum": "OpSum"})
+        it.max_depth = 12
+        try:
+            res = it.call_function(fi, [me, mpos])
+        except SymRaise as e:
+            res = None
+            problems.append(f"raises {e}")
+        items = res.items if isinstance(res, Res) else (res if isinstance(res, list) else None)
+        if not problems and (items is None or len(items) != len(ops)):
+            problems.append(f"{len(items) if items is not None else 'no'} results for {len(ops)} operators")
+        if not problems:
+            for k, (c, idents) in enumerate(zip(items, ops)):
+                if not isinstance(c, Closed) or not isinstance(c.l, Cov) or not isinstance(c.r, Cov):
+                    problems.append(f"result {k} is not a closed network of a left and a right part")
+                    continue
+                ls, rs = c.l.sites, c.r.sites
+                if [i for i, _ in ls] != list(range(len(ls))) or [i for i, _ in rs] != list(range(n - 1, n - 1 - len(rs), -1)) or len(ls) + len(rs) != n:
+                    problems.append(f"operator {k}: left part absorbs sites {[i for i, _ in ls]}, right part {[i for i, _ in rs]}; every site must be absorbed exactly once")
+                    continue
+                got = {i: m for i, m in ls + rs}
+                if [got[i] for i in range(n)] != idents:
+                    problems.append(f"operator {k}: the network contains the matrices {[got[i] for i in range(n)]}, the operator is {idents}")
+        chk.ob(rule, f"Mps.expectations cached path [{lname}]", not problems, fi.where, problems[:2] or "every operator: each site once, with its own matrix", "every operator: each site once, with its own matrix",
+               line=fi.node.lineno, detail="batched expectation values: " + (problems[0] if problems else "") + " - a cached partial environment that overlaps the part contracted on the fly, or belongs to "
+                                                                                                                  "another operator, gives a value that differs from the one-by-one path")
